@@ -267,6 +267,27 @@ def check_spa_lists(rep, repo):
             kind = 'membership'
             if not lookup_ok(c[2], proj):
                 problem = ('the list collects %s' % show(c[2]).replace(show(proj), 'proj'), c[2])
+        elif contains(g, lambda x: x[0] == 'idx' and x[1][0] in ('carried', 'prefix') and x[2] != C(-1)):
+            # a table carried from student to student and read at the lecturer's own slot: a mask whose correctness depends on
+            # how it is cleared between students - outside the fragment, not an adjacent-only test
+            mname = [x[1][1] for x in walk(g) if x[0] == 'idx' and x[1][0] in ('carried', 'prefix')][0]
+            # what is stored as the "seen" marker?  A 0-based position (enumerate without start) is falsy for the first entry:
+            # `if not seen[lec]` then treats the lecturer of the first choice as never seen
+            zero_based = set()
+            for n_ in ast.walk(f.node):
+                if isinstance(n_, ast.For) and isinstance(n_.iter, ast.Call) and isinstance(n_.iter.func, ast.Name) and n_.iter.func.id == 'enumerate' \
+                        and len(n_.iter.args) == 1 and not n_.iter.keywords and isinstance(n_.target, ast.Tuple) and isinstance(n_.target.elts[0], ast.Name):
+                    zero_based.add(n_.target.elts[0].id)
+            stored = [n_.value for n_ in ast.walk(f.node) if isinstance(n_, ast.Assign) and len(n_.targets) == 1 and isinstance(n_.targets[0], ast.Subscript)
+                      and isinstance(n_.targets[0].value, ast.Name) and n_.targets[0].value.id == mname]
+            falsy = [v_ for v_ in stored if (isinstance(v_, ast.Name) and v_.id in zero_based) or (isinstance(v_, ast.Constant) and not v_.value and v_.value is not False)]
+            truth_test = g[0] == 'not' and g[1][0] == 'idx'
+            if falsy and truth_test:
+                rep.fail('C12.R2', w, 'the "already listed" marker of a lecturer is true once the lecturer was listed', got='%s[lecturer] = %s is tested for truth: the value is 0 for the first entry of the list, so that lecturer is listed again' % (mname, ast.unparse(falsy[0])),
+                         want='a marker that is never falsy (True, or `is None` as the test)', construct='seen-marker %s can be 0' % mname)
+                return
+            rep.inconclusive('C12.R2', w, 'the de-duplicating structure is recognised (mask / set / membership)', got='a mask shared by all students: ' + show(g)[:120])
+            return
         elif contains(g, lambda x: x[0] == 'idx' and x[2] == C(-1)) or contains(g, lambda x: x[0] == 'carried' or x[0] == 'prefix'):
             rep.fail('C12.R2', w, "a student's lecturers are de-duplicated over the whole list (a lecturer whose projects are ranked non-adjacently must still appear once)",
                      got='entries are skipped only when equal to the previous one: ' + show(g)[:120], want='mask / set / membership test', construct='adjacent-only de-duplication')
